@@ -21,6 +21,7 @@ CONSTRUCTS = [
     ("try_nomatch", "try:\n{S0}\nexcept E2:\n{S1}", 2),
     ("try_two", "try:\n{S0}\nexcept E3:\n{S1}\nexcept E1:\n{S2}", 3),
     ("try_fin", "try:\n{S0}\nfinally:\n{S1}", 2),
+    ("try_base", "try:\n{S0}\nexcept BaseException as e{L}:\n    t(§, type(e{L}).__name__)\n{S1}", 2),
     ("try_full", "try:\n{S0}\nexcept E1:\n{S1}\nelse:\n{S2}\nfinally:\n{S3}", 4),
     ("with1", "with CM('a{L}'):\n{S0}", 1),
     ("with1s", "with CM('a{L}', suppress=True) as v{L}:\n{S0}", 1),
@@ -31,7 +32,7 @@ CONSTRUCTS = [
     ("def", "def g{L}():\n{S0}\nt(§, g{L}())", 1),
 ]
 QUICK_CONSTRUCTS = {"if_t", "for", "forelse", "while", "whileelse", "try_e1", "try_exc_as", "try_bare", "try_nomatch",
-                    "try_fin", "try_full", "with1", "with1s", "with2", "with_fx", "def", "try_two"}
+                    "try_fin", "try_full", "with1", "with1s", "with2", "with_fx", "def", "try_two", "try_base"}
 
 JUMPS = [
     "break",
@@ -39,13 +40,14 @@ JUMPS = [
     "return t(§, 'r')",
     "raise E1('x')",
     "raise E3('y')",
+    "raise B1('b')",
     "raise E2('p') from E1('q')",
     "raise",
     "t(§, 1) / 0",
     "assert t(§, 0), t(§, 'm')",
     "return",
 ]
-QUICK_JUMPS = ["break", "continue", "return t(§, 'r')", "raise E1('x')", "raise E3('y')", "raise", "t(§, 1) / 0"]
+QUICK_JUMPS = ["break", "continue", "return t(§, 'r')", "raise E1('x')", "raise E3('y')", "raise B1('b')", "raise", "t(§, 1) / 0"]
 
 
 def _indent(text):
